@@ -98,6 +98,12 @@ def rle_lengths(rng, seq, style):
     while i < len(seq):
         v = seq[i]; run = 1
         while i + run < len(seq) and seq[i + run] == v: run += 1
+        if style == "zero16" and v == 0 and run >= 6:
+            # a short zero run (17) continued with "copy previous length" (16): legal, and never produced by zlib or ISA-L
+            out.append((17, 0, 3)); left = run - 3; i += 3
+            while left >= 3:
+                r = min(6, left); out.append((16, r - 3, 2)); left -= r; i += r
+            continue
         if style == "plain" or run < 3 or (style == "mixed" and rng.random() < 0.3):
             out.append((v, 0, 0)); i += 1; continue
         if v == 0:
@@ -160,6 +166,14 @@ def dyn_block(bw, rng, toks, final, maxdepth=15, rle="mixed", fault=None, single
             codes_full = canon(lens_)
             undefined = (max(codes_full[i] for i in cand), mx)      # dropping any code of maximal length leaves the last (all-ones) code unassigned
             lens_[free[-1]] = 0
+    if fault and fault.startswith("extra_code:"):
+        # over-subscribe a complete code set by ONE extra code of a chosen length (Kraft sum exceeds 1 by 2^-L)
+        _, which, L = fault.split(":"); L = int(L)
+        lens_ = d_len if which == "d" else ll_len
+        if which == "d" and sum(1 for x in d_len if x) < 2:
+            for sym, l in zip([0, 1, 2], [1, 2, 2]): d_len[sym] = l
+        free = [i for i in range(len(lens_)) if lens_[i] == 0 and not (which == "ll" and i == 256)]
+        if free: lens_[free[-1]] = L
     if fault == "oversubscribed_ll":
         s = rng.choice([x for x in used_ll]); ll_len[s] = max(1, ll_len[s] - 1)
     if fault == "no_eob": ll_len[256] = 0
@@ -261,7 +275,7 @@ def make_stream(rng, plan, fault=None, fault_block=None):
                 toks = [("lit", 1)] + toks; total += 1
             depth = 15 if kind in ("dynamic15", "bigdyn") else rng.choice([7, 9, 10, 11, 12, 13])
             if kind == "middyn": style, depth = "lits", rng.choice([9, 12, 15])
-            dyn_block(bw, rng, toks, final, maxdepth=depth, rle=rng.choice(["mixed", "plain", "short", "mixed"]), fault=f, single_dist=(kind == "litonly"))
+            dyn_block(bw, rng, toks, final, maxdepth=depth, rle=rng.choice(["mixed", "plain", "short", "mixed", "zero16"]), fault=f, single_dist=(kind == "litonly"))
             if f == "dist_too_far":
                 pass
     return bw.done()
@@ -304,5 +318,8 @@ def too_far_stream(rng):
 PLANS = [["fixed"], ["dynamic"], ["dynamic15"], ["stored"], ["empty_stored", "fixed"], ["empty_fixed", "dynamic"], ["stored", "dynamic", "fixed"],
          ["dynamic", "stored", "dynamic15"], ["litonly"], ["edges"], ["edges", "edges", "fixed"], ["distfar"], ["fixed", "empty_stored", "empty_stored", "stored"],
          ["dynamic15", "dynamic15"], ["litonly", "empty_fixed"], ["bigdyn"], ["stored", "distfar"], ["middyn"], ["middyn", "fixed"]]
+for _L in (1, 2, 7, 9, 12, 14, 15):
+    pass
 FAULTS = {"btype3": "block", "len_nlen": "block", "oversubscribed_ll": "block", "oversubscribed_cl": "block", "no_eob": "block", "rep16_first": "block",
           "rep_past_end": "block", "dist_sym_30": "symbol", "ll_sym_286": "symbol", "dist_too_far": "lookback"}
+FAULTS.update({"extra_code:%s:%d" % (w, L): "block" for w in ("d", "ll") for L in (1, 3, 8, 11, 13, 14, 15)})
